@@ -96,6 +96,18 @@ class C04(Check):
             classes.append(type(f"Sub{k}", (SubProgram,), ns))
         subs = [classes[i]() for i in case["insts"]]
         res = {}
+        # the same subprogram classes were used before, in another (shallower) program of this process: nothing of that
+        # program may show in the one under test
+        with sim_kernel.installed():
+            Pre = type("Pre", (EBPF,), {"p0": LocalVar("B")})
+            pre_subs = [classes[i]() for i in case["insts"]]
+            pre = Pre(ProgType.XDP, "GPL", subprograms=pre_subs)
+            for sp, i in zip(pre_subs, case["insts"]):
+                for n, f in case["classes"][i]["locals"]:
+                    if not is_array(f):
+                        setattr(sp, n, 1)
+            pre.r0 = 2
+            pre.exit()
         with sim_kernel.installed() as kernel:
             e = Main(ProgType.XDP, "GPL", subprograms=subs)
             objs = {"main": e}
